@@ -1,5 +1,6 @@
 """C02 Every accessor flavour of a key denotes the same text."""
 import re
+from mirlib import callee_name
 
 from report import Rule
 from astlib import find_all, find_first, show, show_pat, quotes_in, tok_text, method_chain, callee_path
@@ -437,6 +438,45 @@ def r7_formatter_pipeline(ctx):
                 r.viol("R7:%s_%s#format-call" % (fam, kind), "no single call of the ICU formatter's format method was found on its paths (%s)" % sorted(vals), file=b.file, line=b.line)
                 continue
             got[kind] = vals.pop()
+        # ... and hand on what the ICU formatter produced as it is: between the format call and the output a flavour only moves the
+        # text (Display::fmt, write_to, to_string, unwrap ..); an editing step there (replace, trim, case mapping, padding, a format
+        # template with text of its own) exists in that flavour only
+        edits = []
+        for kind in ("to_view", "to_display", "to_formatter"):
+            b = prog.body(c18.FMOD + pre + "_" + kind)
+            if b is None:
+                continue
+            todo, done = list(prog.family(b)), set()
+            while todo:
+                bb = todo.pop()
+                if bb.name in done:
+                    continue
+                done.add(bb.name)
+                for _i, t_ in bb.calls():
+                    cn = callee_name(t_) or "<indirect call>"
+                    if _PASS.search(cn):
+                        continue
+                    hb = prog.bodies.get(cn)
+                    if hb is not None and "macro_helpers::formatting::" in hb.name and not hb.is_pub:
+                        todo.extend(prog.family(hb))
+                        continue
+                    if t_.get("macro") and re.search(r"write_fmt$|fmt::format$|Arguments::|Argument::|format::", cn):
+                        continue        # (write! / format!: their template is read from the source below)
+                    edits.append((kind, bb, cn, t_.get("line")))
+            afn = ctx.ast.fn("leptos_i18n/src/macro_helpers/formatting/%s.rs" % pre.split("::")[0], pre.split("::")[-1] + "_" + kind)
+            if afn is not None:
+                from astlib import find_all as _find_all
+                for nd in _find_all(afn.body, "Macro"):
+                    mname = nd.get("path", "").split("::")[-1]
+                    if mname in ("write", "writeln", "format", "format_args", "print", "println"):
+                        lits = re.findall(r'"((?:[^"\\\\]|\\\\.)*)"', nd.get("text", "") or "")
+                        if mname in ("writeln", "println") or not lits or lits[0] != "{}":
+                            edits.append((kind, None, "%s!(%s)" % (mname, (nd.get("text") or "")[:40]), nd.get("line")))
+        for kind, bb, cn, ln in edits:
+            r.viol("R7:%s_%s#edits-output" % (fam, kind), "the %s flavour calls `%s` on the way from the ICU formatter to its output; the other flavours hand the formatted text on "
+                   "unchanged, so this flavour alone prints an edited text" % (kind, cn), file=(bb.file if bb is not None else "leptos_i18n/src/macro_helpers/formatting/%s.rs" % pre.split("::")[0]), line=ln)
+        if len(got) == 3 and not edits:
+            r.inst("format_%s#passes-output-on" % fam, "the three flavours only move the formatted text (fmt / write_to / to_string / unwrap): no call outside the pass-through vocabulary")
         if len(got) == 3:
             if len(set(got.values())) == 1:
                 r.inst("format_" + fam, "all three flavours format `%s`" % got["to_view"])
@@ -445,6 +485,12 @@ def r7_formatter_pipeline(ctx):
                 r.viol("R7:format_%s#same-value" % fam, "the flavours format different values: " + "; ".join("%s: `%s`" % (k, got[k]) for k in sorted(got)) + (" (odd one out: %s)" % odd[0] if len(odd) == 1 else ""),
                        file="leptos_i18n/src/macro_helpers/formatting/%s.rs" % pre.split("::")[0])
     return r
+
+
+_PASS = re.compile(r"formatting::get_\w+_formatter$|InputFn>?::to_\w+$|::(as|into|to)_icu_\w+$|::to_fixed_decimal$|IntoIterator>?::into_iter$|Formatter::format\w*$"
+                   r"|::format_\w+_to_(display|view|formatter)$|Display>?::fmt$|Writeable>?::write_to\w*$|::write_to_string$|String::new$|String::with_capacity$|::unwrap$|::expect$"
+                   r"|::to_string$|::into_owned$|::write_str$|Deref>?::deref$|::as_str$|From<[^>]*>>?::from$|Into<[^>]*>>?::into$|::clone$|::as_ref$|::borrow$|::into_view$|::into_any$"
+                   r"|::to_owned$|Fn\w*<[^>]*>>?::call\w*$|::writeable_length_hint$|::capacity$")
 
 
 def run(ctx):
